@@ -485,6 +485,9 @@ func isArrayStringEqual(a []string, b []string) bool {
 	if len(a) != len(b) {
 		return false
 	}
+	// compare sorted copies: a and b are the leaf names of unique statements of the schema
+	a = append([]string(nil), a...)
+	b = append([]string(nil), b...)
 	sort.Strings(a)
 	sort.Strings(b)
 	for i := range a {
